@@ -740,7 +740,7 @@ class Scenario:
                     return _SENTINELS[key]  # type: ignore[index]
                 return NOVALUE
             if kinds - {"value"}:
-                return NOVALUE
+                return self._captures_and_assignments(e.id) if owner is self.deps.fi else NOVALUE
             if owner is self.deps.fi and e.id not in self._defnodes:
                 cap = self._whole_subject_capture(e.id)
                 if cap is not NOVALUE:
@@ -760,7 +760,9 @@ class Scenario:
             n_defs = len([1 for k, _ in self.deps.defs(owner, e.id)])
             walrus = [x for x in self.deps.fi.own_nodes() if isinstance(x, ast.NamedExpr) and x.target.id == e.id]
             if n_defs > len(self._defnodes.get(e.id, [])) + len(walrus):
-                return NOVALUE  # also bound in a way that is not followed (`+=`, loop target, with-as, unpacking): no single value
+                # also bound in a way that is not followed (`+=`, loop target, with-as, unpacking): no single value - unless the
+                # other bindings are whole-subject captures of a match
+                return self._captures_and_assignments(e.id) if not walrus else NOVALUE
             if not nodes and not walrus:
                 return NOVALUE
             guard = (-1, e.id)
@@ -796,6 +798,56 @@ class Scenario:
                 return first if all(v is None for v in vals) else NOVALUE
             return NOVALUE
         return NOVALUE
+
+    def _captures_and_assignments(self, name: str) -> object:
+        """A local bound in some arms by a whole-subject capture (`case timedelta() as delta:`) and in others by a plain
+        assignment (`case seconds: delta = timedelta(seconds=seconds)`): the value of the bindings that are live in this
+        scenario and reach the node being evaluated, when they agree."""
+        arms = []
+        for n in self.g.nodes:
+            if n.kind == "match-case" and isinstance(n.ast, ast.match_case):
+                binds = [pn for pn in ast.walk(n.ast.pattern) if isinstance(pn, (ast.MatchAs, ast.MatchStar)) and pn.name == name] + [pn for pn in ast.walk(n.ast.pattern) if isinstance(pn, ast.MatchMapping) and pn.rest == name]
+                if not binds:
+                    continue
+                if not (len(binds) == 1 and binds[0] is n.ast.pattern and isinstance(binds[0], ast.MatchAs)):
+                    return NOVALUE
+                arms.append(n)
+        plain = list(self._defnodes.get(name, []))
+        if not arms or len([1 for k, _ in self.deps.defs(self.deps.fi, name)]) != len(arms) + len(plain):
+            return NOVALUE
+        at = getattr(self, "_at", None)
+        guard = (-2, name)
+        if guard in self._busy:
+            return NOVALUE
+        self._busy.add(guard)
+        try:
+            vals: list[object] = []
+            alldefs = set(arms) | set(plain)
+            for n in arms + plain:
+                if n.id not in self.reach:
+                    continue
+                if n in arms:
+                    starts = [t for t, lab in n.succ if lab == "T" and not self._known_skip(n, t, lab)]
+                else:
+                    starts = [t for t, lab in n.succ if lab not in ("exc", "reraise") and not self._known_skip(n, t, lab)]
+                if not starts:
+                    continue
+                if at is not None and self.g.search(starts, lambda x: x is at, skip_node=lambda x, n=n: x in alldefs and x is not n and x is not at, skip_edge=self._known_skip, include_start=True) is None:
+                    continue
+                if n in arms:
+                    m = parent(n.ast)
+                    if not isinstance(m, ast.Match):
+                        return NOVALUE
+                    vals.append(eval_expr(m.subject, self.env))
+                else:
+                    direct = self.base_env(n.ast.value)
+                    vals.append(direct if direct is not NOVALUE else eval_expr(n.ast.value, self.env))
+            if not vals or any(v is NOVALUE for v in vals):
+                return NOVALUE
+            first = vals[0]
+            return first if all(v is first for v in vals) else NOVALUE
+        finally:
+            self._busy.discard(guard)
 
     def _whole_subject_capture(self, name: str) -> object:
         """`case name:` / `case <pattern> as name:` bind the whole match subject: in the arms reachable in this scenario
@@ -1022,3 +1074,24 @@ def constructed_attr_values(an, cls_path: str, attr: str) -> list[tuple[ast.Call
             vals = [sc.reduced_at(st, st.ast.value) for st in stores if st.id in sc.reach]  # type: ignore[union-attr]
             out.append((c, vals))
     return out
+
+
+def holds_the_decorated_function(an, ob, class_short: str, attr: str = "_function") -> None:
+    """The wrapper object keeps the very callable it was given: `self._function` has one definition, the constructor's
+    function parameter itself (a cast aside) - not that callable passed through another wrapper (which decides anew whether it
+    is a coroutine function, adds a thread hop, ...)."""
+    from .astutil import is_name, unwrap
+
+    prog = an.prog
+    ci = prog.cls(class_short)
+    init = prog.fn(f"{class_short}.__init__")
+    params = init.param_names()
+    fparam = params[1] if len(params) > 1 else None
+    vals = ci.attr_val.get(attr, [])
+    if fparam is None or not vals:
+        ob.fail(init, None, f"{ci.name}.{attr} is never set from the constructor's function parameter")
+        return
+    for v in vals:
+        ob.inst(init, v, attr)
+        if not is_name(unwrap(v), fparam):
+            ob.fail(init, v, f"{ci.name}.{attr} does not hold the decorated function itself (`{fparam}`) but something derived from it: what is called later is not the function the decorator was given")
